@@ -6,6 +6,7 @@ package simrt
 
 import (
 	"fmt"
+	"strings"
 	"hash/fnv"
 	"math/rand"
 	"runtime"
@@ -79,6 +80,9 @@ type Config struct {
 	Grace     time.Duration // simulated time to keep running after the last essential thread ended
 	TraceFull bool          // keep the full choice trace (for replay files / debugging)
 	PCTDepth  int
+	// FIFOSubstr: among ready threads whose name contains this substring only the one created first may run
+	// (a restriction of the schedule space used as a known-finding mask, DESIGN 5.3).
+	FIFOSubstr string
 }
 
 // Sim is the state of one run.
@@ -542,6 +546,19 @@ func (s *Sim) Run() {
 			s.onStep()
 			s.mu.Lock()
 		}
+		if s.Step&255 == 255 {
+			// forget finished threads (sender goroutines come and go by the thousand)
+			live := s.threads[:0]
+			for _, t := range s.threads {
+				if t.st != stDone {
+					live = append(live, t)
+				}
+			}
+			for i := len(live); i < len(s.threads); i++ {
+				s.threads[i] = nil
+			}
+			s.threads = live
+		}
 		// termination bookkeeping
 		alive := false
 		for _, t := range s.threads {
@@ -579,8 +596,20 @@ func (s *Sim) Run() {
 			e  Event
 		}
 		var cs []choice
+		fifoLive := -1
+		if s.cfg.FIFOSubstr != "" {
+			for _, t := range s.threads {
+				if t.st != stDone && strings.Contains(t.Name, s.cfg.FIFOSubstr) {
+					fifoLive = t.ID
+					break
+				}
+			}
+		}
 		for _, t := range s.threads {
 			if t.st == stReady {
+				if fifoLive >= 0 && t.ID != fifoLive && strings.Contains(t.Name, s.cfg.FIFOSubstr) {
+					continue
+				}
 				cs = append(cs, choice{id: t.ID, t: t})
 			}
 		}
